@@ -15,11 +15,11 @@ TLS_PROTO = "server.tls_protocol:TLSServerProtocol"
 TLS_WRAPPER = "server.tls_protocol:TLSTransportWrapper"
 
 
-def machine_findings(chk: Check, rule: str, kinds: set[str], what: str) -> Machine:
+def machine_findings(chk: Check, rule: str, kinds: set[str], what: str, only=None) -> Machine:
     """Report the protocol machine's violations of the given kinds under
     ``rule`` and record the exploration as obligations."""
     mach = server_machine(chk.proj)
-    hits = [v for v in mach.violations if v.kind in kinds]
+    hits = [v for v in mach.violations if v.kind in kinds and (only is None or only(v))]
     cls = mach.m.cls
     for v in hits:
         fi = chk.proj.find_method(cls, v.entry)
@@ -75,3 +75,98 @@ def nodes_calling(g: Graph, pred) -> list[Node]:
 def is_method_call_on(c: ast.Call, recv: str, names: set[str] | None = None) -> bool:
     mc = method_call(c)
     return bool(mc and dotted(mc[0]) == recv and (names is None or mc[1] in names))
+
+
+def request_accessor_decodes(proj, func, e: ast.Attribute) -> int:
+    """Number of percent-decodings hidden in a request accessor: for
+    `<request>.path` where <request> is a parameter annotated with one of the
+    request classes of protocol.request, the unquote applications in that
+    property's return expressions (0 when the property returns the raw
+    component; -1 when its returns disagree)."""
+    if not isinstance(e, ast.Attribute) or not isinstance(e.value, ast.Name):
+        return 0
+    ann = None
+    fn = func.node
+    for a in list(fn.args.args) + list(fn.args.kwonlyargs):
+        if a.arg == e.value.id and a.annotation is not None:
+            ann = ast.unparse(a.annotation)
+    if ann is None or "Request" not in ann:
+        return 0
+    counts = set()
+    try:
+        mod = proj.module("protocol.request")
+    except Exception:  # noqa: BLE001
+        return 0
+    for ci in mod.classes.values():
+        m = ci.methods.get(e.attr)
+        if m is None or ci.name not in ann and ci.name != "BaseRequest":
+            continue
+        for r in walk(m.node):
+            if isinstance(r, ast.Return) and r.value is not None:
+                counts.add(sum(1 for c in walk(r.value) if isinstance(c, ast.Call) and (dotted(c.func) or "").split(".")[-1] in ("unquote", "unquote_plus")))
+    if not counts:
+        return 0
+    return counts.pop() if len(counts) == 1 else -1
+
+
+def alias_map(fn: ast.AST) -> dict[str, str]:
+    """Local names that are single-assignment copies of a dotted expression
+    (`tcp = self.tls_protocol.transport`)."""
+    out: dict[str, str] = {}
+    multi: set[str] = set()
+    for st in walk(fn):
+        if isinstance(st, (ast.Assign, ast.AnnAssign)):
+            tgts = st.targets if isinstance(st, ast.Assign) else [st.target]
+            for t in tgts:
+                for x in walk(t):
+                    if isinstance(x, ast.Name):
+                        if x.id in out or x.id in multi:
+                            multi.add(x.id)
+                        elif len(tgts) == 1 and isinstance(t, ast.Name) and st.value is not None and dotted(st.value):
+                            out[x.id] = dotted(st.value)
+                        else:
+                            multi.add(x.id)
+        elif isinstance(st, (ast.For, ast.AsyncFor, ast.With, ast.AsyncWith, ast.AugAssign, ast.NamedExpr)):
+            for x in walk(st.target if hasattr(st, "target") else st):
+                if isinstance(x, ast.Name) and isinstance(getattr(x, "ctx", None), ast.Store):
+                    multi.add(x.id)
+    for m in multi:
+        out.pop(m, None)
+    return out
+
+
+def canon_dotted(e: ast.AST, amap: dict[str, str]) -> str:
+    d = dotted(e) or ""
+    for _ in range(4):
+        head = d.split(".")[0]
+        if head in amap:
+            d = amap[head] + d[len(head):]
+        else:
+            break
+    return d
+
+
+def absent_edges(g: Graph, match, amap: dict[str, str]) -> set:
+    """Edges that mean "the object is absent" for tests on expressions whose
+    canonical dotted name satisfies ``match``: the F edge of `if x:` /
+    `if x is not None:`, the T edge of `if not x:` / `if x is None:`."""
+    out = set()
+    for t in g.nodes:
+        if t.kind != "test" or t.ast is None:
+            continue
+        a, flip = t.ast, False
+        while isinstance(a, ast.UnaryOp) and isinstance(a.op, ast.Not):
+            a, flip = a.operand, not flip
+        lab = None
+        if isinstance(a, ast.Compare) and len(a.ops) == 1 and isinstance(a.comparators[0], ast.Constant) and a.comparators[0].value is None and match(canon_dotted(a.left, amap)):
+            lab = "F" if isinstance(a.ops[0], ast.IsNot) else ("T" if isinstance(a.ops[0], ast.Is) else None)
+        elif match(canon_dotted(a, amap)):
+            lab = "F"
+        if lab is None:
+            continue
+        if flip:
+            lab = {"T": "F", "F": "T"}[lab]
+        for b, l2 in g.succ[t.id]:
+            if l2 == lab:
+                out.add((t.id, b, l2))
+    return out
